@@ -46,6 +46,16 @@ def check_copy(prop, rec, orig, copy, what, witness):
     shared = [n for n in S.nodes_preorder(copy) if id(n) in a]
     if shared:
         return bad(f"{what}/shared-objects", f"the copy shares {len(shared)} node objects with the original")
+    # the same through ANY attribute that holds a node (unary nodes keep their constructor operand
+    # in .child, layout leaves .thread, ...): nothing reachable from the copy is part of the original
+    from mathy_core.tree import BinaryTreeNode as _BTN
+
+    for n in S.nodes_preorder(copy):
+        for attr, v in list(vars(n).items()):
+            if attr in ("left", "right", "parent"):
+                continue
+            if isinstance(v, _BTN) and id(v) in a:
+                return bad(f"{what}/shared-objects", f"the copy's attribute .{attr} refers to a node object of the original")
     problems = S.audit(copy if copy.parent is None else S.root_of(copy), expr=_is_expr(copy))
     if problems:
         return bad(f"{what}/audit", "the copy is not structurally sound: " + problems[0])
